@@ -18,10 +18,10 @@ PROP = {
     "units": [
         {"name": "c19-extractor", "pkg": "./internal/pkg/postprocessor/extractor", "run": "^TestVerif_C19_", "kind": "rapid",
          "facets": ["C19/json", "C19/xml", "C19/m3u8", "C19/s3walk", "C19/ext-rule"],
-         "checks": (8000, 40000), "shards": (2, 16), "timeout": (600, 900)},
+         "checks": (6000, 30000), "shards": (2, 16), "timeout": (600, 1500)},
         {"name": "c19-dispatch", "pkg": "./internal/pkg/postprocessor", "run": "^TestVerif_C19_", "kind": "rapid",
          "facets": ["C19/classification", "C19/s3-dispatch"],
-         "checks": (5000, 25000), "shards": (2, 16), "timeout": (600, 900)},
+         "checks": (4000, 18000), "shards": (2, 16), "timeout": (600, 1500)},
         # strict sub-checks of the open findings (run only while the finding is listed as open)
         {"name": "c19-kf-json", "pkg": "./internal/pkg/postprocessor/extractor", "run": "^TestVerifKF_C19_json_rfc3986_url$", "kind": "kf",
          "finding": "C19-json-fasturl-rejects-rfc3986-url", "facets": [], "checks": (1, 1), "shards": (1, 1), "timeout": (120, 120)},
